@@ -13,7 +13,7 @@
 #      exactly the undefined names in placeholder position;
 #  (4) dump_conf_header: exactly the keys, once each, sorted, documented rendering per type.
 # Plus a file-level slice (do_conf_file on real files == do_conf_str on the same text, byte for byte).
-import io, itertools, json, os, re, string, sys
+import io, itertools, json, os, re, signal, string, sys, time
 from verif.core import Check, pmap, run_main, scratch_root
 
 from mesonbuild import mlog
@@ -57,6 +57,26 @@ K_EOL_CRLF = 'C14:define-line-eol:crlf-to-lf'
 K_EOL_EOF = 'C14:define-line-eol:newline-added-at-eof'
 K_SWALLOW = 'C14:cmake:empty-value-swallows-next-placeholder'
 K_ARGMISS = 'C14:cmake:cmakedefine-arg-undefined-not-reported'
+K_HANG = 'C14:cmake:self-referential-value-never-terminates'
+HANG_S = 3                 # watchdog per real call (a call takes ~10 us)
+HANG_CLASS_LIVE = False    # decided by probes in the parent: skip the (unspecified) self-referential class if it hangs
+
+
+class Hang(BaseException):
+    pass
+
+
+def _on_alarm(sig, frm):
+    raise Hang()
+
+
+signal.signal(signal.SIGALRM, _on_alarm)
+
+
+def self_referential(text, fmt, a, b):
+    """cmake formats, B's own value mentions @B@ behind its first character and B can be reached from the template."""
+    return fmt != 'meson' and isinstance(b, str) and '@B@' in b[1:] and \
+        ('B' in text or (isinstance(a, str) and 'B' in a and 'A' in text))
 
 
 def split_lines(text):
@@ -334,12 +354,17 @@ def cd_for(a, b):
 
 
 def run_real(lines, cd, fmt):
+    signal.alarm(HANG_S)
     try:
         res, missing, _ = do_conf_str('t.in', list(lines), cd, fmt)
     except MesonException as e:
         return ('err', str(e)[:120])
     except Exception as e:
         return ('crash', '%s: %s' % (type(e).__name__, str(e)[:120]))
+    except Hang:
+        return ('hang', 'no result after %d s' % HANG_S)
+    finally:
+        signal.alarm(0)
     if not isinstance(res, list) or len(res) != len(lines) or not all(isinstance(x, str) for x in res):
         return ('crash', 'result is not a list of %d strings: %r' % (len(lines), res))
     return ('ok', res, set(missing))
@@ -365,7 +390,7 @@ class Acc:
         self.vcount = {}
         self.classes = set()
         self.unspec = {}
-        self.first = {}
+        self.hangs = 0
 
     def add(self, k, v=1):
         self.n[k] = self.n.get(k, 0) + v
@@ -408,10 +433,21 @@ def check_template(acc, text, frags, fmts, datasets, verbose=False):
         for (a, b) in datasets:
             data = {'A': a, 'B': b}
             rep = {'part': 'template', 'frags': frags, 'template': text, 'format': fmt, 'data': data}
+            if HANG_CLASS_LIVE and self_referential(text, fmt, a, b):
+                acc.add('skipped_self_referential_cmake_value')
+                continue
+            if acc.hangs >= 2:
+                acc.add('not_run_after_hangs')
+                continue
             r = run_real(lines, cd_for(a, b), fmt)
             acc.add('evaluations')
             if verbose:
                 print('observed  :', r)
+            if r[0] == 'hang':
+                acc.hangs += 1
+                acc.violation(K_HANG if self_referential(text, fmt, a, b) else 'C14:%s:hang' % fmt,
+                              'do_conf_str does not terminate on %r (%s) with %r' % (text, fmt, data), dict(rep, expected='a result', observed=r[1]))
+                continue
             if r[0] == 'crash':
                 acc.violation('C14:%s:crash:%s' % (fmt, r[1].split(':')[0]), 'unhandled exception %s' % r[1], rep)
                 continue
@@ -464,7 +500,7 @@ def oracle1(acc, lines, S, r, a, b, ka, kb, rep, verbose):
             continue
         key = 'C14:meson:value-dependent-output'
         src = lines[i]
-        if src.startswith('#mesondefine') and sl.startswith('#define ') and isinstance(rep['data'].get(sl.split()[1]), str):
+        if src.lstrip().startswith('#mesondefine') and sl.startswith('#define ') and isinstance(rep['data'].get(sl.split()[1]), str):
             body, eol = split_eol(exp)
             if act == rescan_prediction(body, rep['data']) + eol:
                 key = K_RESCAN
@@ -628,11 +664,16 @@ def file_slice(ck, maxlen, seed):
         lines = split_lines(text)
         for fmt in FORMATS:
             for (a, b) in picks:
+                if self_referential(text, fmt, a, b) and HANG_CLASS_LIVE:
+                    continue
                 n += 1
                 rep = {'part': 'file', 'template': text, 'format': fmt, 'data': {'A': a, 'B': b}}
                 exp = run_real(lines, cd_for(a, b), fmt)
+                if exp[0] == 'hang':
+                    continue        # reported by the enumeration
                 if os.path.exists(dst):
                     os.unlink(dst)
+                signal.alarm(HANG_S)
                 try:
                     missing, _ = do_conf_file(src, dst, cd_for(a, b), fmt)
                     with open(dst, 'rb') as f:
@@ -641,6 +682,10 @@ def file_slice(ck, maxlen, seed):
                     got = ('err', str(e)[:120])
                 except Exception as e:
                     got = ('crash', '%s: %s' % (type(e).__name__, e))
+                except Hang:
+                    got = ('hang',)
+                finally:
+                    signal.alarm(0)
                 if exp[0] == 'ok':
                     want = ('ok', ''.join(exp[1]).encode('utf-8'), exp[2])
                     if b'\r\n' in want[1]:
@@ -834,10 +879,6 @@ def calibrate(ck):
 
 
 # ---- main --------------------------------------------------------------------------------------------------------------
-def report(ck, key, what, replay):
-    ck.violation(key, what, replay)
-
-
 def main():
     global TEMPLATES
     ck = Check('C14', 'exploration')
@@ -849,10 +890,21 @@ def main():
     ncal = calibrate(ck)
     ck.part('calibration', pinned_expectations_reproduced_by_reference=ncal)
     TEMPLATES, nseq = build_templates(maxlen)
+    global HANG_CLASS_LIVE
+    pacc = Acc()
+    for t in ('@B@', '#cmakedefine A @B@\n'):
+        check_template(pacc, t, [t], ['cmake', 'cmake@'], [('v', '\\\\@B@')])
+    HANG_CLASS_LIVE = pacc.hangs > 0
+    for key, what, rep in pacc.viol:
+        if key == K_HANG:
+            ck.part('known_finding_witnesses', **{key: {'template': rep['template'], 'format': rep['format'], 'data': rep['data']}})
+        ck.violation(key, what, rep)
+    ck.part('hang_probe', probes=4, hangs=pacc.hangs, class_skipped_in_enumeration=HANG_CLASS_LIVE)
     nt = len(TEMPLATES)
     # contiguous shards, simplest first; smaller shards first so early (short) counterexamples surface in order
     step = max(50, nt // 320)
     ranges = [(lo, min(nt, lo + step)) for lo in range(0, nt, step)]
+    t_build = time.time()
     tot, unspec, vcount, classes, seen = {}, {}, {}, set(), set()
     for res in pmap(shard, ranges):
         for k, v in res['n'].items():
@@ -887,8 +939,12 @@ def main():
     ck.require(tot.get('o3_missing_nonempty', 0) > 100 and tot.get('copy_cases', 0) > 100, 'metamorphic oracles vacuous')
     ck.require(any('esc-var' in c for c in classes) and any('esc-pairs' in c for c in classes) and any('crlf' in c for c in classes),
                'escape / CRLF classes not exercised')
+    t_enum = time.time()
     nfile = file_slice(ck, 2, ck.seed)
+    t_file = time.time()
     nhead, hclasses = header_part(ck)
+    print('phases: probes+build %.1fs enumeration %.1fs file slice %.1fs header %.1fs' % (
+        t_build - ck.t0, t_enum - t_build, t_file - t_enum, time.time() - t_file), flush=True)
     ck.sample({'template': '\\\\\\@A\\@@B@\r\n', 'format': 'meson', 'data': {'A': '@B@', 'B': 'x y'}})
     ck.sample({'template': TEMPLATES[nt // 2][0], 'fragments': [FRAGS[i] for i in TEMPLATES[nt // 2][1]], 'formats': FORMATS})
     ck.sample({'template': TEMPLATES[nt - 7][0], 'fragments': [FRAGS[i] for i in TEMPLATES[nt - 7][1]], 'formats': FORMATS})
@@ -900,7 +956,7 @@ def main():
                    '3..%d keys x {c,nasm,json} x macro guard. distinct_nontrivial = number of distinct (format, set of reference line '
                    'features: var/escape kinds/define kinds/error/CRLF/unspecified reason) classes among templates having at least one '
                    'feature + distinct (header format, value-kind set) classes' % (maxlen, nseq, nt, VALUES, FORMATS, 6 if ck.thorough else 4),
-              exhaustive=True)
+              exhaustive=tot.get('not_run_after_hangs', 0) == 0)
 
 
 def replay(ck):
